@@ -741,6 +741,10 @@ func (ex *Exec) chanSend(cv, v Value) {
 	if ch.Closed {
 		ex.goPanic("send on closed channel")
 	}
+	ex.yieldPoint(nil, func() bool { return ch.Closed || len(ch.Buf) < ch.Cap })
+	if ch.Closed {
+		ex.goPanic("send on closed channel")
+	}
 	if len(ch.Buf) >= ch.Cap {
 		ex.end(EndUnsupported, "blocking send (sequential model)")
 	}
@@ -770,6 +774,9 @@ func (ex *Exec) chanTryRecv(ch *Chan) (Value, bool, bool) {
 
 func (ex *Exec) chanRecv(cv Value, blocking bool) (Value, bool) {
 	ch := cv.(*Chan)
+	if ch != nil {
+		ex.yieldPoint(nil, func() bool { return len(ch.Buf) > 0 || ch.Closed || ch.Gen != nil })
+	}
 	v, ok, ready := ex.chanTryRecv(ch)
 	if !ready {
 		ex.end(EndUnsupported, "blocking receive (sequential model)")
@@ -787,6 +794,32 @@ func (ex *Exec) selectOp(fr *frame, x *ssa.Select) Value {
 	}
 	// ready states
 	var ready []int
+	chans := make([]*Chan, len(x.States))
+	for i, st := range x.States {
+		chans[i] = ex.get(fr, st.Chan).(*Chan)
+	}
+	isReady := func(i int) bool {
+		ch := chans[i]
+		if ch == nil {
+			return false
+		}
+		if x.States[i].Dir == types.SendOnly {
+			return ch.Closed || len(ch.Buf) < ch.Cap
+		}
+		return len(ch.Buf) > 0 || ch.Closed || ch.Gen != nil
+	}
+	if x.Blocking {
+		ex.yieldPoint(nil, func() bool {
+			for i := range chans {
+				if isReady(i) {
+					return true
+				}
+			}
+			return false
+		})
+	} else {
+		ex.yieldPoint(nil, nil)
+	}
 	for i, st := range x.States {
 		ch := ex.get(fr, st.Chan).(*Chan)
 		if ch == nil {
@@ -844,10 +877,3 @@ func (ex *Exec) selectOp(fr *frame, x *ssa.Select) Value {
 	return res
 }
 
-func (ex *Exec) goStmt(fr *frame, x *ssa.Go) {
-	ex.unsupported("go statement (no scheduler for this obligation)")
-}
-
-func (ex *Exec) noteAccess(c *Cell, write bool) {}
-
-type scheduler struct{}
